@@ -41,7 +41,8 @@ def gen_name(rng, ctx):
     return rng.choice(['a b', 'a[1]', 'x"y', "it's", 'back\\slash', 'new\nline', 'tab\t', '{"k":1}', '']), 'punct'
   if r < 0.9:
     return rng.choice(['événement', '信号', '\U0001f600sig', 'näive', '\ud800lone']), 'unicode'
-  return rng.choice(['ENTRY_SIGNAL', 'EXIT_SIGNAL', 'INIT_SIGNAL', 'signal', 'payload', 'keys', 'append']), 'reserved'
+  return rng.choice(['ENTRY_SIGNAL', 'EXIT_SIGNAL', 'INIT_SIGNAL', 'signal', 'payload', 'keys', 'append', 'update', 'clear', 'pop', 'get', 'copy', 'items',
+                     'values', 'lock', 'highest_inner_signal', 'name_for_signal', 'is_inner_signal', '__len__', '__class__', 'move_to_end']), 'reserved'
 
 
 def gen_payload(rng, depth=0):
@@ -171,7 +172,10 @@ def run_case(ctx, n):
   if isinstance(payload, (list, dict)) and payload:
     ctx.count('nested_payloads')
   ctx.distinct((ncls, shape(payload)))
-  if e2.signal_name != name:
+  if name not in signals or not isinstance(e2.signal, int) or isinstance(e2.signal, bool):
+    ctx.violation('C26/number-differs', 'round-tripped event of signal name %r reports number %r; the registry %s' % (
+      name, e2.signal, ('has %r for that name' % (signals[name],)) if name in signals else 'does not know that name'), wit)
+  elif e2.signal_name != name:
     ctx.violation('C26/name-differs', 'round trip changed the signal name %r -> %r' % (name, e2.signal_name), wit)
   elif not exact_equal(e2.payload, payload):
     ctx.violation('C26/payload-differs', 'round trip changed the payload %r -> %r' % (payload, e2.payload), wit)
